@@ -22,7 +22,7 @@ import (
 func fields(s string) []string { return strings.Fields(s) }
 
 var hlslCertain = fields(`
-AppendStructuredBuffer asm_fragment BlendState bool break Buffer ByteAddressBuffer case cbuffer centroid class
+AppendStructuredBuffer asm_fragment BlendState bool break Buffer ByteAddressBuffer case cbuffer centroid linear class
 column_major compile compile_fragment CompileShader const continue ComputeShader ConsumeStructuredBuffer default
 DepthStencilState DepthStencilView discard do double DomainShader dword else export extern false float for fxgroup
 GeometryShader groupshared half Hullshader if in inline inout InputPatch int interface matrix min16float min10float
@@ -39,7 +39,7 @@ float1 float2 float3 float4 int1 int2 int3 int4 uint1 uint2 uint3 uint4 bool1 bo
 double2 double3 double4 float2x2 float3x3 float4x4 float2x3 float3x4 float4x3 int2x2 uint4x4 half4x4 min16float4
 `)
 
-var hlslContextual = fields(`sample point line triangle lineadj triangleadj linear pass technique technique10 technique11 decl
+var hlslContextual = fields(`sample point line triangle lineadj triangleadj pass technique technique10 technique11 decl
 Pass Technique ASM Decl`)
 
 var hlslIntrinsics = fields(`abs acos all any asfloat asint asuint atan2 ceil clamp clip cos cross ddx ddy degrees determinant distance
